@@ -211,10 +211,26 @@ def explore(ctx, prop_id, n_quick=24, n_thorough=2000, budget_quick=12.0, budget
     ctx.extra["server_free"] = ("free-running TcpServer scenarios (N io threads, raw-socket peers, oracle only): supporting evidence, "
                                 "not proof; flavours " + ",".join(flavours))
     done = 0
+    # corpus first: witnesses of repaired defects (free-running: each is run three times)
+    import glob
+    import os
+    from .common import CORPUS
+    for path in sorted(glob.glob(os.path.join(CORPUS, "server", "*.scenario"))):
+        clines = [l.rstrip("\n") for l in open(path) if l.startswith("server ") or l.startswith("peer ")]
+        for flav in flavours[:2]:
+            for _ in range(3):
+                status, fails, notes, out, err = run_scenario(exes[flav], clines)
+                ctx.count("server:corpus-runs")
+                mine = [(k, d) for k, d in fails if relevant(prop_id, k) or k in ("crash", "sanitizer", "tsan")]
+                if prop_id == "C02" and mine:
+                    ctx.oracle_failures.append((_case(clines, flav, "corpus:" + os.path.basename(path)), "server:" + mine[0][0],
+                                                mine[0][1] + " [corpus scenario %s, %s]" % (os.path.basename(path), flav)))
+                    return
     for i in range(n):
         if time.time() - t0 > budget or ctx.stop():
             break
-        lines, info = gen_scenario(ctx.rng)
+        # every fourth scenario tears the server down while closes are still in flight
+        lines, info = gen_scenario(ctx.rng, race=(i % 4 == 3))
         flav = flavours[i % len(flavours)]
         status, fails, notes, out, err = run_scenario(exes[flav], lines)
         done += 1
